@@ -37,7 +37,7 @@ func (x *Exec) runOnce(dec []Dec, concrete map[string]string) (out abortSig, pr 
 	x.spec = false
 	x.concrete = concrete
 	x.ctxN = 0
-	x.seqLocks, x.wg, x.atomicPtr, x.lastNow, x.guards = nil, nil, nil, nil, nil
+	x.seqLocks, x.wg, x.atomicPtr, x.lastNow, x.guards, x.ufMemo = nil, nil, nil, nil, nil, nil
 	x.allowPanic = x.eng.spec.AllowPanic
 	x.params = x.eng.spec.Params
 	pr = &pathReport{}
